@@ -1,6 +1,7 @@
 package agent
 
 import (
+	"strings"
 	"bytes"
 	"encoding/json"
 	"io"
@@ -113,8 +114,20 @@ func TestVerifC04Rest(t *testing.T) {
 	for _, v := range vals {
 		cases = append(cases, vk.C04Case{Target: "rest-build", Class: "build: arguments of another JSON type", Input: []byte(v)})
 	}
+	// every subset of the keys of a valid, rich request (incomplete requests: no payload, no lifetime, ...)
+	pairs := []string{`"source":"dtn://a/b"`, `"destination":"dtn://c/d"`, `"report_to":"dtn://a/r"`, `"creation_timestamp_now":true`, `"lifetime":"1h"`,
+		`"payload_block":"x"`, `"hop_count_block":30`, `"bundle_age_block":0`}
+	for m := 0; m < 1<<len(pairs); m++ {
+		var sel []string
+		for i, p := range pairs {
+			if m&(1<<i) != 0 {
+				sel = append(sel, p)
+			}
+		}
+		cases = append(cases, vk.C04Case{Target: "rest-build", Class: "build: subset of a valid request", Input: []byte("{" + strings.Join(sel, ",") + "}")})
+	}
 	vk.RunC04(t, vk.C04Spec{Target: "rest-build", Unit: vk.Unit{Property: "C04", Name: "c04.rest-build",
-		Rule: "POST /rest/build through the RestAgent's HTTP handler (httptest) for a registered client: 'arguments' with every documented key x values of every JSON type, alone and added to a valid request, and non-object arguments; in child processes; violation = process death, panic escaping the handler, hang, allocation > 4 MiB + 256 x len(input); distinct by input hash"}}, cases)
+		Rule: "POST /rest/build through the RestAgent's HTTP handler (httptest) for a registered client: 'arguments' with every documented key x values of every JSON type, alone and added to a valid request, every subset of the keys of a valid request, and non-object arguments; in child processes; violation = process death, panic escaping the handler, hang, allocation > 4 MiB + 256 x len(input); distinct by input hash"}}, cases)
 }
 
 func TestVerifC04RestRaw(t *testing.T) {
